@@ -18,6 +18,13 @@ def make_module(it, modname):
             d.na_object = kwargs.get("na_object", None)
             return d
         return ModuleNS("numpy.dtypes", {"StringDType": TypeObj("StringDType", ctor=string_dtype)})
+    if modname == "numba":
+        ident = ModelFn("numba.njit(..)", lambda i, a, k: a[0])
+        return ModuleNS("numba", {"njit": ModelFn("numba.njit", lambda i, a, k: ident if not a else a[0]),
+                                  "types": ModuleNS("numba.types", {n: TypeObj("numba." + n) for n in
+                                                                    ("Float", "NPDatetime", "NPTimedelta", "UnicodeType", "Integer", "Boolean")})})
+    if modname == "numba.extending":
+        return ModuleNS("numba.extending", {"overload": ModelFn("numba.extending.overload", lambda i, a, k: ModelFn("overload(..)", lambda i2, a2, k2: a2[0]))})
     if modname == "math":
         return ModuleNS("math", {"inf": INF})
     if modname == "json":
